@@ -78,17 +78,20 @@ class Addr:
         self.created = datetime.datetime.utcnow()
 
         if self.expires is not None:
+            # seconds from now until the (new) expiry; never negative
+            if self.expires <= self.created:
+                delay = 0
+            else:
+                delay = (self.expires - self.created).total_seconds()
+
             if oldexpires is None:
-                if self.expires <= self.created:
-                    diff = datetime.timedelta(seconds=0)
-                else:
-                    diff = self.expires - self.created
-                self.expiry = self.map.scheduler.callLater(diff.seconds,
+                self.expiry = self.map.scheduler.callLater(delay,
                                                            self._expire)
 
             else:
-                diff = self.expires - oldexpires
-                self.expiry.delay(diff.seconds)
+                # move the pending expiry to the new time, which may
+                # be earlier or later than the old one
+                self.expiry.reset(delay)
 
     def _expire(self):
         """
